@@ -36,6 +36,22 @@ P = {
    "explicit-state search over all merges of per-connection command sequences issued through the real connection handler, compared with a per-connection model",
    "For database counts {1,2,3,16}: every merge of 2-3 connections' programs (<= 2-3 commands each) over SELECT with 13 argument forms (valid, boundary, negative, empty, non-numeric, non-canonical, overflowing) and data commands, through Manager.Handle on in-memory connections; every reply is compared with a model holding one keyspace per database and one selected index per connection, and every database dump with its model keyspace.",
    "Commands are issued one at a time (interleaving = merge of sequences); simultaneous execution is covered by C05's race pass.", "DESIGN.md §3 C20"),
+ "C05": (True, "concmc", "exploration",
+   "stateless preemption-bounded DFS over thread interleavings of the real executors under a cooperative scheduler (scheduling point before every lock, rwlock announce, select, invocation, response), brute-force linearizability oracle; separate free-running -race pass",
+   "For each of ~26 scenarios of 2-4 client threads x 1-2 commands on keys forced to collide on a lock stripe / map shard (lost updates, check-then-act, element conservation, keyspace bookkeeping, readers vs writers, lazy expiry vs writers) every schedule with <= 2 (thorough 3) preemptions is executed on the real memdb executors; each complete history must be linearizable against the reference keyspace with a linearization ending in the dumped keyspace; invariants, deadlock, panic checked; the same thread bodies run free under -race for unsynchronised accesses.",
+   "Interleavings inside regions without synchronisation operations are not explored (race pass is dynamic, not exhaustive); scenarios, not arbitrary client counts.", "DESIGN.md §3 C05"),
+ "C13": (True, "concmc", "exploration",
+   "exhaustive lock-order audit of every command x key-order class under lock tracing, plus preemption-bounded DFS over interleavings of multi-key command pairs with linearizability / conservation / deadlock oracles",
+   "(a) every registered command x every argument vector (<= 4 arguments) over {k0,k1 (same stripe),k2,k3,...} x pre-state is run alone with lock tracing: stripe acquisition order inversion, re-acquisition, stripe-after-shard, self-deadlock and leaked locks are violations; (b) ~19 scenarios of MSET/RENAME/LMOVE/SMOVE/*STORE/multi-key DEL, EXISTS, BLPOP pairs against each other and single-key writers, every schedule with <= 2 (3) preemptions: scheduler-detected deadlock, linearizability over the joint keys for the atomic commands, conservation of elements, invariants; free-running -race pass.",
+   "Same limits as C05; blocking-pop scenarios are schedule-capped (reported in the evidence).", "DESIGN.md §3 C13"),
+ "C16": (True, "walmc", "fault_enumeration",
+   "exhaustive enumeration of crash points x unsynced-sector subsets x single-byte corruptions of short WAL/snapshot histories executed on the real files through the real wal/snap code",
+   "Every history up to the length bound over 15 operation shapes (plus long histories crossing two segment cuts) runs through the real wal.Create/Save/SaveSnapshot/ReleaseLockTo/cut and Snapshotter.SaveSnap on a scratch directory; at every durability callback and API return the per-file durable base is mixed sector-wise (every subset of the 512-byte sectors written since the last completed sync, file-size variants) and every image is recovered with Open+ReadAll / OpenForRead / Verify / ValidSnapshotEntries (+Repair): recovered records must be a byte-identical prefix at least as long as the acknowledged ones; every written byte is flipped with several masks and must yield an error or an unmodified prefix; damaged newest snapshot must fall back.",
+   "Fault model is the property's (sector-atomic, zero-filled preallocation, no reordering across files); one known open finding (record type byte not covered by the CRC).", "DESIGN.md §3 C16"),
+ "C19": (True, "concmc", "exploration",
+   "preemption-bounded DFS over interleavings of subscribe / publish / disconnect threads on the real Pub/Sub code with a linearizability oracle over (delivered sets, PUBLISH counts); separate -race pass",
+   "9 scenarios (two subscribers, two channels, two publishers, connection failing, context cancelled while another subscriber registers, payloads with CR LF / empty) are explored for every schedule with <= 2 (3) preemptions; from the bytes each recording connection received, the oracle requires exactly-once intact delivery, per-publisher order, and an order of subscribe / asynchronous unsubscribe / publish operations consistent with real time that explains every delivery set and PUBLISH reply; deadlock, panic and subscriber bookkeeping at quiescence checked.",
+   "In-memory connections; the shape of the SUBSCRIBE acknowledgement is C03's business.", "DESIGN.md §3 C19"),
  "C18": seq("Every program up to the completed depth over XADD (explicit, partial and auto ids; NOMKSTREAM; MAXLEN/MINID with = and ~) and XRANGE (every bound shape) plus millisecond clock events, compared with an ordered-slice model; id order and id<->entry bijection are checked in every state.", "DESIGN.md §3 C18"),
 }
 NOT_YET = "check not built yet (work in progress in this session; see DESIGN.md for the planned engine)"
